@@ -596,6 +596,10 @@ func (x *X) doCall(op tr.Line) tr.Line {
 				if c == "ctxerr" && !expired && ctx.Err() == nil {
 					x.fail("Stop", "ctxerr-with-live-context", "")
 				}
+				if _, cancelled, _, _ := gnet.VerifEngState(eng); c == "ctxerr" && willCancel && !cancelled {
+					// "returns the context's error if the context ends first, without cancelling the shutdown"
+					x.fail("Stop", "ctxerr-without-shutdown", "Stop returned the context's error but the shutdown of the running engine was never started")
+				}
 				if phase == "empty" || phase == "shutdown" || neverStarted {
 					check(c)
 				}
